@@ -14,6 +14,7 @@ struct A { virtual ~A() {} int a; };
 struct B : A { int b; };
 struct C : A { int c; };
 struct VB : virtual A { int vb; };                      // virtual base: conversions need dynamic_cast
+struct Fin final : A { int f; };                        // a C++-final class (static type == dynamic type by construction)
 struct Trk { Trk(); Trk(const Trk&); Trk(Trk&&) noexcept; ~Trk(); int v; };   // tracked non-virtual argument type
 
 // ---- policies -------------------------------------------------------------
@@ -43,7 +44,9 @@ struct proj_rtti : policy::rtti {
     template<typename D, typename B_> static D dynamic_cast_ref(B_&& obj) { return dynamic_cast<D>(obj); }
 };
 struct p_proj : policy::basic_policy<p_proj, proj_rtti, policy::vptr_map<p_proj>, policy::vectored_error<p_proj>> {};
-template<class P> struct pol_classes { use_classes<A, B, C, VB, P> reg; };
+// run-time checks without an error_handler facet: a failed check can only abort
+struct p_noerr : policy::basic_policy<p_noerr, policy::std_rtti, policy::checked_perfect_hash<p_noerr>, policy::vptr_vector<p_noerr>> {};
+template<class P> struct pol_classes { use_classes<A, B, C, VB, Fin, P> reg; };
 }  // namespace yw
 '''
 
@@ -57,11 +60,12 @@ POLICIES = {
     "p_nohash": "yw::p_nohash",
     "p_def": "yw::p_def",
     "p_proj": "yw::p_proj",
+    "p_noerr": "yw::p_noerr",
 }
 HASHED = {"release", "debug", "p_ind", "p_throw", "p_dbg2"}
-CHECKED = {"debug", "p_dbg2"}
+CHECKED = {"debug", "p_dbg2"}      # stock checked policies (p_noerr is checked too, but has no handler to report to)
 INDIRECT = {"p_ind"}
-HAS_ERROR = set(POLICIES)  # all have an error_handler facet
+HAS_ERROR = set(POLICIES) - {"p_noerr"}
 
 # virtual parameter kinds: letter -> (method parameter, definition parameter, call-site parameter decl, call expr)
 VKINDS = {
@@ -250,6 +254,15 @@ template<class P> struct routes {
     static auto sh_const_fin(std::shared_ptr<const yw::B>& s) { return virtual_ptr<std::shared_ptr<const yw::B>, P>::final(s); }
     static auto sh_const_make() { return make_virtual_shared<const yw::B, P>(); }
     static auto const_fin(const yw::B& b) { return virtual_ptr<const yw::B, P>::final(b); }
+    static auto cxxfinal_ctor(yw::Fin& f) { return virtual_ptr<yw::Fin, P>(f); }
+    static auto cxxfinal_fin(yw::Fin& f) { return virtual_ptr<yw::Fin, P>::final(f); }
+    static auto cxxfinal_sh(std::shared_ptr<yw::Fin>& s) { return virtual_ptr<std::shared_ptr<yw::Fin>, P>(s); }
+    static auto cxxfinal_sh_fin(std::shared_ptr<yw::Fin>& s) { return virtual_ptr<std::shared_ptr<yw::Fin>, P>::final(s); }
+    static auto cxxfinal_make() { return make_virtual_shared<yw::Fin, P>(); }
+    // the references the constructor's dynamic route is compared with, one per pointee class used above
+    static auto cxxfinal_dyn(const yw::Fin& f) { return P::dynamic_vptr(f); }
+    static auto dynref_A(const yw::A& a) { return P::dynamic_vptr(a); }
+    static auto dynref_B(const yw::B& b) { return P::dynamic_vptr(b); }
     static auto sh_down(const virtual_ptr<std::shared_ptr<yw::A>, P>& p) { return p.template cast<virtual_ptr<std::shared_ptr<yw::B>, P>>(); }
     static yw::A* get(const virtual_ptr<yw::A, P>& p) { return p.get(); }
     static yw::A& deref(const virtual_ptr<yw::A, P>& p) { return *p; }
